@@ -31,6 +31,15 @@ struct GNeg
         return (int64_t)(cmix(S * 1000003ull + i * 7919ull + 3) % 201) - 100 == 0 ? 7 : (int64_t)(cmix(S * 1000003ull + i * 7919ull + 3) % 201) - 100;
     }
 };
+// generators that depend on the size argument n: make_batch_constant must pass the lane count
+struct GUsesN
+{
+    static constexpr uint64_t get(size_t i, size_t n) { return (n - i) * 3 + n; }
+};
+struct GBoolUsesN
+{
+    static constexpr bool get(size_t i, size_t n) { return ((i + n) % 3) == 0 || i + 1 == n; }
+};
 struct GArange
 {
     static constexpr uint64_t get(size_t i, size_t) { return i; }
@@ -401,6 +410,7 @@ static void all_types(Rng& rng)
         value_const<T, GWide<2>>("wide2");
         value_const<T, GWide<3>>("wide3");
         value_const<T, GArange>("arange");
+        value_const<T, GUsesN>("uses_n");
         value_const<T, GConst7>("constant");
         value_const<T, GAlt>("alternating");
         per_lane_value<T>(std::make_integer_sequence<unsigned, N> {});
@@ -422,6 +432,7 @@ static void all_types(Rng& rng)
     bool_const<T, GB<3>>(rng, "random3");
     bool_const<T, GB<4>>(rng, "random4");
     bool_const<T, GPrefixHalf>(rng, "prefix_half");
+    bool_const<T, GBoolUsesN>(rng, "uses_n");
     bool_const<T, GAltB>(rng, "alternating");
     bool_const<T, GAllTrue>(rng, "all_true");
     bool_const<T, GAllFalse>(rng, "all_false");
